@@ -1,0 +1,316 @@
+//go:build verif
+
+package rueidis
+
+import (
+	"bufio"
+	"context"
+	"io"
+	"sync/atomic"
+	"time"
+
+	"github.com/redis/rueidis/internal/cmds"
+)
+
+// This file only exists with the "verif" build tag. It exposes thin wrappers
+// around unexported internals, so that an external verification harness can
+// drive and observe them. Nothing here is reachable in a normal build.
+
+// VerifNode is a neutral tree representation of a RedisMessage.
+type VerifNode struct {
+	Attrs  *VerifNode
+	Str    string
+	Values []VerifNode
+	Int    int64
+	Typ    byte
+}
+
+// VerifDump converts a RedisMessage to a VerifNode tree.
+func VerifDump(m RedisMessage) VerifNode {
+	n := VerifNode{Typ: m.typ}
+	if m.attrs != nil && m.attrs != cacheMark {
+		a := VerifDump(*m.attrs)
+		n.Attrs = &a
+	}
+	if m.array != nil {
+		vs := m.values()
+		n.Values = make([]VerifNode, len(vs))
+		for i, v := range vs {
+			n.Values[i] = VerifDump(v)
+		}
+	} else if m.bytes != nil {
+		n.Str = string([]byte(m.string()))
+	} else {
+		n.Int = m.intlen
+	}
+	return n
+}
+
+// VerifBuild converts a VerifNode tree to a RedisMessage (as the decoder would produce it).
+func VerifBuild(n VerifNode) RedisMessage {
+	m := RedisMessage{typ: n.Typ}
+	switch n.Typ {
+	case typeArray, typeMap, typeSet, typePush, typeAttribute:
+		vs := make([]RedisMessage, len(n.Values))
+		for i, v := range n.Values {
+			vs[i] = VerifBuild(v)
+		}
+		m.setValues(vs)
+		if vs == nil {
+			m.array = nil
+			m.intlen = 0
+		}
+	case typeInteger, typeBool, typeNull, typeEnd:
+		m.intlen = n.Int
+	default:
+		m.setString(string([]byte(n.Str)))
+	}
+	if n.Attrs != nil {
+		a := VerifBuild(*n.Attrs)
+		m.attrs = &a
+	}
+	return m
+}
+
+// VerifReadNextMessage exposes readNextMessage.
+func VerifReadNextMessage(r *bufio.Reader) (RedisMessage, error) { return readNextMessage(r) }
+
+// VerifStreamTo exposes streamTo.
+func VerifStreamTo(r *bufio.Reader, w io.Writer) (int64, error, bool) { return streamTo(r, w) }
+
+// VerifWriteCmd exposes writeCmd.
+func VerifWriteCmd(w *bufio.Writer, cmd []string) error { return writeCmd(w, cmd) }
+
+// VerifNewBuilder exposes cmds.NewBuilder for cluster (InitSlot) and non-cluster (NoSlot) builders.
+func VerifNewBuilder(cluster bool) Builder {
+	if cluster {
+		return cmds.NewBuilder(cmds.InitSlot)
+	}
+	return cmds.NewBuilder(cmds.NoSlot)
+}
+
+// VerifCacheKey exposes the cache identity of a cacheable command.
+func VerifCacheKey(c Cacheable) (key, cmd string) { return cmds.CacheKey(c) }
+
+// VerifMGetCacheKey exposes the per key cache identity of a MGET/JSON.MGET cacheable command.
+func VerifMGetCacheKey(c Cacheable, i int) (key, cmd string) {
+	return cmds.MGetCacheKey(c, i), cmds.MGetCacheCmd(c)
+}
+
+// VerifQueue exposes the pipeline queue implementations.
+type VerifQueue struct{ q queue }
+
+// VerifNewQueue creates a ring (kind "ring") or a flowbuffer (kind "flowbuffer") queue.
+// For the ring, start presets its write/read1/read2 indices to exercise uint32 wrap-around.
+func VerifNewQueue(kind string, scale int, start uint32) *VerifQueue {
+	if kind == queueTypeFlowBuffer {
+		return &VerifQueue{q: newFlowBuffer(scale)}
+	}
+	r := newRing(scale)
+	r.write, r.read1, r.read2 = start, start, start
+	return &VerifQueue{q: r}
+}
+
+func (q *VerifQueue) PutOne(ctx context.Context, m Completed) (chan RedisResult, error) {
+	return q.q.PutOne(ctx, m)
+}
+func (q *VerifQueue) PutMulti(ctx context.Context, m []Completed, resps []RedisResult) (chan RedisResult, error) {
+	return q.q.PutMulti(ctx, m, resps)
+}
+func (q *VerifQueue) NextWriteCmd() (Completed, []Completed, chan RedisResult) {
+	return q.q.NextWriteCmd()
+}
+func (q *VerifQueue) WaitForWrite() (Completed, []Completed, chan RedisResult) {
+	return q.q.WaitForWrite()
+}
+func (q *VerifQueue) NextResultCh() (Completed, []Completed, chan RedisResult, []RedisResult) {
+	return q.q.NextResultCh()
+}
+func (q *VerifQueue) FinishResult() { q.q.FinishResult() }
+
+// VerifWire is a minimal counting wire for driving the pool directly.
+type VerifWire struct {
+	pipe
+	ID      int64
+	Closed  atomic.Int32
+	err     atomic.Pointer[errs]
+	timerOK atomic.Bool
+}
+
+var _ wire = (*VerifWire)(nil)
+
+func (w *VerifWire) Error() error {
+	if e := w.err.Load(); e != nil {
+		return e.error
+	}
+	return nil
+}
+func (w *VerifWire) SetError(err error) { w.err.Store(&errs{error: err}) }
+func (w *VerifWire) Close() {
+	w.Closed.Add(1)
+	w.err.CompareAndSwap(nil, errClosing)
+}
+func (w *VerifWire) StopTimer() bool  { return w.timerOK.Load() }
+func (w *VerifWire) ResetTimer() bool { return true }
+
+// SetTimerExpired makes StopTimer report false (connection lifetime expired).
+func (w *VerifWire) SetTimerExpired(expired bool) { w.timerOK.Store(!expired) }
+
+// VerifPool exposes the blocking pool.
+type VerifPool struct {
+	p    *pool
+	Dead *VerifWire
+}
+
+// VerifNewPool creates a pool whose wires are VerifWires produced by makeFn.
+func VerifNewPool(cap, minSize int, cleanup time.Duration, makeFn func(ctx context.Context) *VerifWire) *VerifPool {
+	dead := &VerifWire{ID: -1}
+	dead.timerOK.Store(true)
+	dead.err.Store(errClosing)
+	return &VerifPool{Dead: dead, p: newPool(cap, dead, cleanup, minSize, func(ctx context.Context) wire {
+		w := makeFn(ctx)
+		return w
+	})}
+}
+
+// VerifNewWire creates a fresh live counting wire.
+func VerifNewWire(id int64) *VerifWire {
+	w := &VerifWire{ID: id}
+	w.timerOK.Store(true)
+	w.pshks.Store(emptypshks)
+	w.clhks.Store(emptyclhks)
+	return w
+}
+
+// Acquire returns the acquired *VerifWire, or nil with the wire's error if the pool
+// returned one of its internal dead pipes (context done).
+func (p *VerifPool) Acquire(ctx context.Context) (*VerifWire, error) {
+	w := p.p.Acquire(ctx)
+	if vw, ok := w.(*VerifWire); ok {
+		return vw, nil
+	}
+	return nil, w.Error()
+}
+
+// AcquireRaw returns the raw wire, to be passed to StoreRaw like callers of the pool do.
+func (p *VerifPool) AcquireRaw(ctx context.Context) (w any, vw *VerifWire, err error) {
+	rw := p.p.Acquire(ctx)
+	if v, ok := rw.(*VerifWire); ok {
+		return rw, v, v.Error()
+	}
+	return rw, nil, rw.Error()
+}
+
+func (p *VerifPool) StoreRaw(w any)     { p.p.Store(w.(wire)) }
+func (p *VerifPool) Store(w *VerifWire) { p.p.Store(w) }
+func (p *VerifPool) Close()             { p.p.Close() }
+
+// Stats returns (size, idle, cap, down) under the pool's lock.
+func (p *VerifPool) Stats() (size, idle, cap int, down bool) {
+	p.p.cond.L.Lock()
+	defer p.p.cond.L.Unlock()
+	return p.p.size, len(p.p.list), p.p.cap, p.p.down
+}
+
+// VerifLRUEntry describes one entry of the built-in cache store.
+type VerifLRUEntry struct {
+	Key     string
+	Cmd     string
+	Size    int
+	Pending bool
+	PXAT    int64
+}
+
+// VerifLRUSnapshotLocked walks the lru. It must only be called from the
+// "lru.update.end" hook (the store's lock is held there) or at quiescence via VerifLRUSnapshot.
+func VerifLRUSnapshotLocked(store any) (entries []VerifLRUEntry, size, max int, consistent bool) {
+	c := store.(*lru)
+	if c.list == nil {
+		return nil, c.size, c.max, true
+	}
+	consistent = true
+	n := 0
+	for ele := c.list.Front(); ele != nil; ele = ele.Next() {
+		e := ele.Value.(*cacheEntry)
+		entries = append(entries, VerifLRUEntry{Key: e.kc.key, Cmd: e.cmd, Size: e.size, Pending: e.val.typ == 0, PXAT: e.val.getExpireAt()})
+		kc, ok := c.store[e.kc.key]
+		if !ok || kc != e.kc || kc.cache[e.cmd] != ele {
+			consistent = false
+		}
+		n++
+	}
+	m := 0
+	for _, kc := range c.store {
+		for _, ele := range kc.cache {
+			if ele != nil {
+				m++
+			}
+		}
+	}
+	if m != n {
+		consistent = false
+	}
+	return entries, c.size, c.max, consistent
+}
+
+// VerifLRUSnapshot takes the store's lock and walks it.
+func VerifLRUSnapshot(store CacheStore) (entries []VerifLRUEntry, size, max int, consistent bool) {
+	c := store.(*lru)
+	c.mu.Lock()
+	defer c.mu.Unlock()
+	return VerifLRUSnapshotLocked(c)
+}
+
+// VerifNewLRU creates the built-in cache store.
+func VerifNewLRU(max int) CacheStore { return newLRU(CacheStoreOption{CacheSizeEachConn: max}) }
+
+// VerifLRUFlights exposes the batched Flights of the built-in store.
+func VerifLRUFlights(store CacheStore, now time.Time, multi []CacheableTTL) (results []RedisResult, entries map[int]CacheEntry, missed []int) {
+	results = make([]RedisResult, len(multi))
+	entries = make(map[int]CacheEntry)
+	missed = store.(*lru).Flights(now, multi, results, entries)
+	return
+}
+
+// VerifEntryMinSize is the accounted overhead of an entry.
+const VerifEntryBaseSize = entryBaseSize
+
+// VerifApproximateSize exposes the accounted size of a message.
+func VerifApproximateSize(m RedisMessage) int { return m.approximateSize() }
+
+// VerifSetExpireAt sets the expiry of a message as the read loop does.
+func VerifSetExpireAt(m *RedisMessage, pxat int64) { m.setExpireAt(pxat) }
+
+// VerifGroup is a neutral form of a parsed topology group.
+type VerifGroup struct {
+	Nodes []string
+	Slots [][2]int64
+}
+
+func verifGroups(g map[string]group) map[string]VerifGroup {
+	ret := make(map[string]VerifGroup, len(g))
+	for k, v := range g {
+		vg := VerifGroup{Slots: v.slots}
+		for _, n := range v.nodes {
+			vg.Nodes = append(vg.Nodes, n.Addr)
+		}
+		ret[k] = vg
+	}
+	return ret
+}
+
+// VerifParseSlots exposes parseSlots.
+func VerifParseSlots(m RedisMessage, defaultAddr string) map[string]VerifGroup {
+	return verifGroups(parseSlots(m, defaultAddr))
+}
+
+// VerifParseShards exposes parseShards.
+func VerifParseShards(m RedisMessage, defaultAddr string, tls bool) map[string]VerifGroup {
+	return verifGroups(parseShards(m, defaultAddr, tls))
+}
+
+// VerifPickReplica exposes the sentinel replica selection.
+func VerifPickReplica(r RedisResult) (string, error) { return pickReplica(r) }
+
+// VerifSetQueueType overrides the queue implementation chosen for new pipes.
+func VerifSetQueueType(kind string) { queueTypeFromEnv = kind }
